@@ -135,10 +135,14 @@ PROPS = {
     "C07": {
         "rule": "cases = (content size n, include_self) handed to the private create_pkg_length through the cfg hook; "
                 "quick: every n < 70000 in both forms, +-64 around 2^12, 2^20, 2^28, 200000 random n < 2^28, 20 sizes beyond 2^28; "
-                "thorough: every n < 2^28 in both forms; distinct = distinct (n, form); every case is non-trivial",
+                "thorough: every n < 2^28 in both forms; distinct = distinct (n, form); every case is non-trivial; "
+                "call sites (component 40): one real object of every length-prefixed kind (Buffer data, VarPackage, Device, Scope, "
+                "Scope::raw, Method, PowerResource, Package, PackageBuilder, If, Else, While, two nested levels) around a filler of "
+                "0..80, 236..262, 4060..4100, 65515..65545 bytes (thorough: +-24 around 2^20 and 200 random sizes), resource templates "
+                "of 0..7/18..23/336..344/5455..5465 descriptors, field lists with widths over every width class up to 2^28-1",
         "exhaustive": {"quick": False, "thorough": True},
         "exhaustive_note": "thorough sweeps the whole domain 0 <= n < 2^28 in the inclusive and the exclusive form",
-        "assumptions": COMMON_ASSUME + ["the object kinds' call sites pass their body length: covered by the C06 term-level correspondence"],
+        "assumptions": COMMON_ASSUME + ["call sites: c07_call_sites is about the term model's constructors (frame_op); the tie of each constructor to aml.rs is the component-40 correspondence"],
     },
     "C08": {
         "rule": "cases = (carrier type, value); u8 and u16 exhaustively through every type able to carry the value; "
